@@ -542,6 +542,38 @@ theorem nothing_declared_without_lt (isStr : Bool) (markup : List Nat) (isHtml e
 example : Rx.findDeclaredRx true (ofS "charset=utf-8 encoding='x' ?> meta") true true = none :=
   nothing_declared_without_lt _ _ _ _ (by decide)
 
+/-- THE XML DECLARATION WINS. When the XML-declaration pattern matches (within its 1024 bytes), its group
+    decides — whatever `<meta>` tags the document also carries, for HTML and XML alike (an empty name
+    means "nothing declared", and the `<meta>` is still not consulted). The `<meta>` pattern is
+    consulted only when the XML pattern does not match, and only for HTML. Stated for the regex mirror
+    (`Rx.search` over the generated patterns), hence by `declared_regex_refinement` for the model's matcher. -/
+theorem xml_declaration_wins (markup : Bytes) (isHtml : Bool) :
+    (∀ g, Rx.search Rx.bytesFlavor Rx.xmlPattern markup 1024 = some g →
+      Rx.findDeclaredRx false markup isHtml false = if g.isEmpty then none else some (lower (asciiReplace g))) ∧
+    (Rx.search Rx.bytesFlavor Rx.xmlPattern markup 1024 = none →
+      Rx.findDeclaredRx false markup isHtml false =
+        if isHtml then
+          match Rx.search Rx.bytesFlavor Rx.htmlPattern markup (max 2048 (markup.length / 20)) with
+          | some g => if g.isEmpty then none else some (lower (asciiReplace g))
+          | none => none
+        else none) := by
+  constructor
+  · intro g hg
+    simp [Rx.findDeclaredRx, hg]
+  · intro hn
+    cases isHtml
+    · simp [Rx.findDeclaredRx, hn]
+    · simp only [Rx.findDeclaredRx, hn, Bool.false_eq_true, if_false, if_true]
+      cases Rx.search Rx.bytesFlavor Rx.htmlPattern markup (max 2048 (markup.length / 20)) <;> rfl
+
+-- an XHTML page whose XML declaration and <meta> disagree: the XML declaration is reported, in both modes
+example : findDeclared (ofS "<?xml version=\"1.0\" encoding=\"iso-8859-2\"?>\n<html><head><meta charset=\"iso-8859-1\"></head>") true
+      = some (ofS "iso-8859-2") ∧
+    findDeclared (ofS "<html><head><meta charset=\"iso-8859-1\"></head><?xml version=\"1.0\" encoding=\"iso-8859-2\"?>") true
+      = some (ofS "iso-8859-1") ∧
+    findDeclared (ofS "<html><head><meta charset=\"iso-8859-1\"></head><?xml version=\"1.0\" encoding=\"iso-8859-2\"?>") false
+      = none := by decide +kernel
+
 /-! #### well-formed declarations inside the window are found -/
 
 /-- `<?xml … encoding="NAME" …?>` at the start (after optional white space) and within the first
